@@ -1,2 +1,24 @@
 import SpoxModel.Props.C09
 /-! `#print axioms` for every property theorem of C09; parsed by ./check. -/
+#print axioms C09.one_version_per_domain
+#print axioms C09.one_version_per_domain_functions
+#print axioms C09.import_is_max
+#print axioms C09.not_imported_of_not_required
+#print axioms C09.min_opset_ge_14
+#print axioms C09.default_floor
+#print axioms C09.default_floor_every_graph
+#print axioms C09.entry_invariant
+#print axioms C09.node_valid_at_import_partial
+#print axioms C09.decision_total
+#print axioms C09.body_own_opsets_counterexample
+#print axioms C09.unknown_rank_counterexample
+#print axioms C09.adapted_names_fresh
+#print axioms C09.adapted_names_fresh_pinned_counterexample
+#print axioms Opset.lookup_policy_iff
+#print axioms Opset.mem_reqGraph_iff
+#print axioms Opset.since_fix_default
+#print axioms Opset.since_fix_ml
+#print axioms Opset.in_force_default
+#print axioms Opset.in_force_ml
+#print axioms Opset.kept_graph_ok
+#print axioms Opset.kept_ml_ok
